@@ -116,10 +116,9 @@ Proof.
       * destruct (sendq (ch s)) as [|[j v] q] eqn:Q; intros E; inversion E; subst s'; apply GEN; reflexivity.
     + (* OClose *) simpl. destruct (existsb (fun u => pending_w (pc u)) (thr s)); [discriminate|].
       intros E; inversion E; subst s'. eapply (invA_move s i t CWait); eauto; try discriminate.
-    + (* OIsClosed *) simpl. destruct (existsb (fun u => pending_w (pc u)) (thr s)) eqn:G; [discriminate|].
-      intros E; inversion E; subst s'. eapply (invA_move s i t ILocked); eauto; try discriminate.
-      intros _. right. intros j tj Hj. pose proof (existsb_false_nth _ _ _ _ G Hj) as F. simpl in F.
-      unfold pending_w in F. destruct (pc tj); auto; discriminate.
+    + (* OIsClosed *) intros E; inversion E; subst s'. eapply (invA_move s i t Idle); eauto; try discriminate.
+    + (* OLen *) intros E; inversion E; subst s'. eapply (invA_move s i t Idle); eauto; try discriminate.
+    + (* OCap *) intros E; inversion E; subst s'. eapply (invA_move s i t Idle); eauto; try discriminate.
   - (* SLocked *)
     intros E; inversion E; subst s'. destruct (wclosed s) eqn:W.
     + eapply (invA_move s i t (SUnlock false)); eauto; try discriminate; rewrite Pc; auto.
@@ -189,10 +188,6 @@ Proof.
       * discriminate.
       * pose proof (OTH a ta Na Ha') as F. rewrite Pa in F. discriminate.
   - (* CUnlock *)
-    intros E; inversion E; subst s'. eapply (invA_move s i t Idle); eauto; try discriminate.
-  - (* ILocked *)
-    intros E; inversion E; subst s'. eapply (invA_move s i t (IUnlock (wclosed s))); eauto; try discriminate; rewrite Pc; auto.
-  - (* IUnlock *)
     intros E; inversion E; subst s'. eapply (invA_move s i t Idle); eauto; try discriminate.
 Qed.
 
